@@ -9,7 +9,7 @@ import shutil
 import tempfile
 from pathlib import Path
 
-from ..core.runner import HarnessError, REPO
+from ..core.runner import HarnessError, REPO, guarded
 from ..ref import formats as F
 from ..ref import grainlaws as G
 from ..ref.ratelaws import same
@@ -411,12 +411,12 @@ def run(ctx):
     nval = 0
     refused_by_path = {}
     with mp.get_context("fork").Pool(ctx.workers, maxtasksperchild=1) as pool:
-        for label, n, viols, rbp in pool.imap_unordered(run_combo, [w + (ctx.tier,) for w in work]):
+        for label, n, viols, rbp in pool.imap_unordered(guarded(run_combo), [w + (ctx.tier,) for w in work]):
             nval += n
             for r in rbp:
                 refused_by_path[f"{label.split('|')[0]}|{label.split('|')[1]}|{r}"] = refused_by_path.get(f"{label.split('|')[0]}|{label.split('|')[1]}|{r}", 0) + 1
             ctx.absorb(viols)
-        for model, viols in pool.imap_unordered(run_missing_eb, MODELS):
+        for model, viols in pool.imap_unordered(guarded(run_missing_eb), MODELS):
             nval += 1
             ctx.absorb(viols)
     ctx.assumptions += [
